@@ -12,11 +12,17 @@ CONFIG = dict(
                "program with panic and defer/recover that is written statement by statement after the Go code - runs a handler at most once in every "
                "execution, invokes a completion function exactly once on every path except a request on a notify-shaped method (D11, known finding; "
                "full statement refuted, D11 proved the only such path), makes every error path the single event 'framework completion with an error', "
-               "never lets the framework complete without an error, and lets no panic escape when the serializer itself does not panic.  The summary "
+               "never lets the framework complete without an error, and lets no panic escape when the serializer itself does not panic.  CallMethod's "
+               "two closures around the local variable 'completed' (fix of D23, /repo 7b326e6: the handler is handed handlerCB = cbFunc, then completed = true; "
+               "SafeCall's recover is handed panicCB = cbFunc only if !completed) are modelled as function values with the variable threaded through the handler "
+               "body, and it is proved for EVERY handler behaviour (any number of completions, values the completion function panics on, panicking or not) that "
+               "the framework's own 'panic in rpc' completion is made iff the handler's frame panicked and none of its completions had gone through "
+               "(exec_panic_completion_iff_not_completed); hence the exactly-once theorems now cover a handler that completes once and THEN panics, and a "
+               "completion function that itself panics (unserialisable result) still gets the error (exec_choking_callback_still_gets_error).  The code before "
+               "that fix is kept as callMethodXPre / completionsGPre with the witness that it completed twice (prefix_complete_then_panic_completed_twice).  The summary "
                "model (Outcome + completions table) the older theorems are about is PROVED to be what the executions do (execution_refines_summary, "
                "dispatch_execution_refines_summary).  Proved to be FALSE for the code as it is, each with a concrete witness reproduced on the real code "
-               "on every run: exactly-once for a handler that completes and then panics (two completions; two ServiceResponses for one ReqId behind the "
-               "dispatcher), 'exposed = handler-shaped' when the 4th parameter must accept the completion function (func(int)/func()/func with result are "
+               "on every run: 'exposed = handler-shaped' when the 4th parameter must accept the completion function (func(int)/func()/func with result are "
                "exposed and can never be invoked: exposed_route_callable_iff), no-escaping-panic when Unmarshal panics (user serializer, or a message "
                "type whose UnmarshalJSON panics under the JSON serializer: outside SafeCall), answered-once for an unknown route at the service level "
                "when the legacy receiver answers too (Dispatch answers 'no method', returns false, handleRequest falls through).  The model is tied to the "
@@ -48,7 +54,12 @@ CONFIG = dict(
                        "execution_refines_summary", "exec_completes_exactly_once_partial", "exec_error_paths_one_error_completion",
                        "exec_framework_completions_are_errors", "exec_handler_runs_at_most_once", "exec_no_escaping_panic",
                        "exec_serializer_panic_escapes", "panicking_handler_completions", "panicking_handler_completes_once_iff",
-                       "panicking_handler_completes_once_full_fails", "dispatch_complete_then_panic_answers_twice",
+                       "panicking_handler_completes_once_full_fails", "dispatch_complete_then_panic_answers_once",
+                       "exec_panic_completion_iff_not_completed", "exec_complete_then_panic_completes_once",
+                       "exec_choking_callback_still_gets_error", "panicking_handler_completes_once",
+                       "exec_completes_exactly_once_any_callback",
+                       "complete_then_panic_completes_once", "prefix_panicking_handler_completions",
+                       "prefix_complete_then_panic_completed_twice",
                        "shape_predicate_strict_fails", "exposed_route_callable_iff", "named_pointer_parameter_invoked",
                        "build_does_not_panic", "build_nil_entry_panics", "escapes_iff_message_type_has_no_elem", "custom_formater_can_escape",
                        "dispatch_execution_refines_summary", "exec_dispatch_request_answered_once_partial",
@@ -64,7 +75,7 @@ CONFIG = dict(
                      dict(name="seed3", env={"VERIF_N": "400000"}, seed_offset=2000, timeout=800)],
     },
     trivial=r"^(ok|0|valid=0|bad-op|n=0 |ran=- comps=(-|f:err)|(ret|legacy)=0 ran=- comps=(-|f:err#\d+))?$",
-    rule="corpus (D11 witness + one op per clause + a registry race) first; registry concurrency stream: in every 5th case 2-4 goroutines call "
+    rule="corpus (D11 witness + one op per clause + a registry race + the D23 family: every complete/panic/choke script) first; registry concurrency stream: in every 5th case 2-4 goroutines call "
          "Registry.AddCollection with the same fresh name inside a forced window (the harness holds the registry's write lock until the goroutine dump "
          "shows all of them parked inside AddCollection, then releases it), each handle gets an entry of its own, Registry.Build(), then every handle is "
          "asked for every route; the lock/lookup/insert structure of AddCollection is re-extracted from the source (go/ast) on every run; bounded exhaustive: every synthetic method shape with <=3 (thorough: <=4) parameters over a pool "
@@ -83,8 +94,10 @@ CONFIG = dict(
          "with typed/nil/wrong arguments and, for *MsgA / the named pointer type PM, the assignable-but-not-identical other one, "
          "APIDispatcher.Dispatch over several collections (request and notify; 1 in 12 without sender), 1 in 3 of those through Service.Receive/handleRequest "
          "with an absent / silent / answering legacy receiver, with or without a dispatcher, with an empty route; routes: 60% aimed at a real method, else case variants, 0-4 segments, "
-         "empty parts, unknown group/method, random bytes; payloads valid/undecodable/empty/truncated/valid JSON value + trailing junk (extra brace, trailing comma, second document, other bytes; trailing white space still decodes); contexts nil/matching/other type; with and "
-         "without completion function; handler scripts ok/err/twice/none/panic/runtime-panic/complete-then-panic/late/unserialisable value. "
+         "empty parts, unknown group/method, random bytes; payloads valid/undecodable/empty/truncated/valid JSON value + trailing junk (extra brace, trailing comma, second document, other bytes; trailing white space still decodes); contexts nil/matching/other type; with a plain completion function, "
+         "a picky one (1 in 6 of those that carry one: panics on the value the 'bad' scripts complete with, as the dispatcher's closure does) and without; handler scripts "
+         "ok/err/twice/err-then-ok/none/panic/runtime-panic/complete-then-panic/error-then-panic/twice-then-panic/late/unserialisable value/error-then-unserialisable value "
+         "(corpus d23.txt: each of them through CallWithSerialize with both kinds of completion function, Dispatch and handleRequest). "
          "A case is non-trivial when a handler ran, a table was non-empty or a method was accepted; distinct = distinct (op, observation) pairs",
     trusted_base=[
         "Lean 4.33.0 kernel; axioms of every property theorem audited on each run (allowed: propext, Classical.choice, Quot.sound)",
@@ -99,12 +112,13 @@ CONFIG = dict(
         "harness canonicalisation (map iteration sorted, error texts dropped, completions tagged by who issued them, a ServiceResponse counted when it is handed to Context.Send, panics caught by recover and mapped to 'panic')",
     ],
     assumptions=[
-        "handler discipline: the exactly-once guarantee is about handlers that complete exactly once and return, or panic before completing; a handler that "
-        "completes and THEN panics gets a second completion ('panic in rpc') from SafeCall: the full statement without the discipline hypothesis is proved false "
-        "(panicking_handler_completes_once_full_fails, dispatch_complete_then_panic_answers_twice: two ServiceResponses for one ReqId), the exact behaviour is "
-        "panicking_handler_completions, it is observed on the real code on every run and NOT alarmed on - a candidate finding for the lead to classify; "
-        "a handler that never completes or completes twice is outside the statement",
-        "the completion function passed by the caller does not itself panic (the dispatcher's own closure may: that case is modelled as a 'picky' completion function)",
+        "handler discipline: the exactly-once guarantee is about handlers that complete exactly once (and then return OR PANIC: D23 is fixed, a framework completion "
+        "on top of a handler's own is alarmed on as C13/callback-completed-twice), or panic before completing; a handler that never completes, or that ITSELF invokes "
+        "the completion function more than once, is outside the statement (the framework hands the function over and cannot prevent it: "
+        "panicking_handler_completes_once_iff, panicking_handler_completes_once_full_fails)",
+        "the completion function passed by the caller does not panic on an ERROR completion; one that panics on a VALUE it cannot take is inside the model (a 'picky' completion "
+        "function: the dispatcher's own closure, and a picky function of the harness's own driven through CallWithSerialize / Call directly, cb=2; "
+        "exec_completes_exactly_once_any_callback, exec_choking_callback_still_gets_error)",
         "the serializer's Unmarshal returns (a value or an error): when it PANICS (user serializer; message type whose UnmarshalJSON panics under the JSON serializer) the panic "
         "leaves CallWithSerialize and the completion function is never invoked (exec_serializer_panic_escapes, observed on the real code on every run, judged "
         "'outside-statement', NOT alarmed on - a candidate finding for the lead to classify)",
